@@ -46,6 +46,11 @@ def gen_cases(ctx):
             cases.append(".".join(map(str, t)))
     _, kws = load_keywords()
     kwl = sorted(kws)
+    # every keyword spelling of the regenerated table in three casings plus near-misses
+    # (this also cross-validates translator T2 against the running lexer)
+    for w in kwl:
+        for v in (w, w.lower(), w.capitalize(), w + "x", w[:-1], "_" + w, w + "1", w.lower() + " " + w):
+            cases.append(".".join(str(ord(c)) for c in v))
     nrand = 20000 if ctx.quick else 300000
     pieces_ws = [" ", "\t", "\n", "\r\n", "\r", "  ", "\n\n"]
     ops = list("()[]{}*/%@.=,<>+-:&") + ["<<", "<=", "<>", ">>", ">=", "&&", "++", "+=", "--", "-=", ":="]
